@@ -63,6 +63,9 @@ class MultiTargetMCSU2(Gate):
         self.controls = QuantumRegister(num_controls)
         self.target = QuantumRegister(num_target)
         self.num_controls = num_controls + 1
+        if isinstance(ctrl_state, (int, np.integer)):
+            # decimal control state, as documented
+            ctrl_state = f"{ctrl_state:0{num_controls}b}"
         self.ctrl_state = ctrl_state
 
         super().__init__("ldmcsu", num_controls + num_target, [], "ldmcsu")
